@@ -629,6 +629,8 @@ class TdmsChannel(object):
         if len(self) > 0 and self._raw_data is None:
             raise RuntimeError("Channel data has not been read")
 
+        if self._raw_data is None:
+            return {}
         return self._raw_data.scaler_data
 
     def data_chunks(self):
@@ -863,6 +865,9 @@ class TdmsChannel(object):
                 num_values = min(length, len(self) - offset)
             num_values = max(0, num_values)
             channel_data = get_data_receiver(self, num_values, self._raw_timestamps, self._memmap_dir)
+        if channel_data is None:
+            # Channel has no data type, so there is no data to read
+            return None
 
         with Timer(log, "Read data for channel"):
             # Now actually read all the data
